@@ -35,6 +35,10 @@ def dispatch (d : DS) (line : String) : DS × String :=
   | "C03" :: rest => let (s, o) := Driver.C03.handle d.c03 rest; ({ d with c03 := s }, o)
   | "C17" :: rest => let (s, o) := Driver.C17.handle d.c17 rest; ({ d with c17 := s }, o)
   | "C01" :: rest => let (s, o) := Driver.Chan.handle "C01" d.chan rest; ({ d with chan := s }, o)
+  | ["C02", "burst", n, accepted, delivered] =>
+    (d, if (accepted.drop 9).toString != (delivered.drop 10).toString then
+          s!"specviol stranded: of {(accepted.drop 9).toString} payloads accepted during a burst of {(n.drop 2).toString} writes only {(delivered.drop 10).toString} were handed to the transport after the traffic had stopped"
+        else "ok burst")
   | "C02" :: rest => let (s, o) := Driver.Chan.handle "C02" d.chan rest; ({ d with chan := s }, o)
   | "C05" :: rest => let (s, o) := Driver.Chan.handle "C05" d.chan rest; ({ d with chan := s }, o)
   | ["C06", "http", want, body, closed] =>
